@@ -101,6 +101,14 @@ fn compute_body_classes<'ast, 'arena>(
         *class = class.join(stmt.expr_class);
     }
 
+    // A store into a variable of an enclosing function outlives the call, so a body that
+    // contains one is not pure even when every expression in it is.
+    for (function_idx, directs) in facts.function_directs.iter().enumerate() {
+        if !directs.direct_capture_writes.is_empty() {
+            body_classes[function_idx] = ExprClass::Impure;
+        }
+    }
+
     body_classes
 }
 
